@@ -102,7 +102,8 @@ def ok_return_blocks(b):
     out = []
     for i, bl in enumerate(b.blocks):
         for st in bl["stmts"]:
-            if st["k"] == "assign" and st["rv"]["k"] == "agg" and st["rv"].get("adt") == "core::result::Result" and st["rv"]["vname"] == "Ok":
+            if st["k"] == "assign" and st["rv"]["k"] == "agg" and st["rv"].get("adt") == "core::result::Result" and st["rv"]["vname"] == "Ok" \
+                    and st["place"]["l"] == 0 and not st["place"]["p"]:
                 out.append((i, st))
     return out
 
@@ -112,6 +113,6 @@ def packet_ok_returns(b):
     out = []
     for i, st in ok_return_blocks(b):
         o = b.origin(st["rv"]["ops"][0])
-        if any(c[1].endswith("Codec::decode") for c in origin_calls(o)):
+        if b.may_mention(o, r"Codec::decode$"):
             out.append(i)
     return out
